@@ -152,6 +152,15 @@ def _check(ctx: Ctx) -> None:
               message="", file=fd.file, node=so or fd.node)
     # the sort key in detokenise uses sort_order
     srt = [c for c in ast.walk(fd.node) if isinstance(c, ast.Call) and isinstance(c.func, ast.Name) and c.func.id == "sorted" and "sort_order" in src(c)]
+    if not srt:
+        # ... or in a helper of the class that detokenise calls on the token (the key may be a nested function there)
+        for c in ast.walk(fd.node):
+            if isinstance(c, ast.Call) and isinstance(c.func, ast.Attribute) and isinstance(c.func.value, ast.Name) and c.func.value.id == "self":
+                h = p.lookup_method(fd.cls, c.func.attr)
+                if h is not None and h.qualname != fd.qualname:
+                    hs = [x for x in ast.walk(h.node) if isinstance(x, ast.Call) and isinstance(x.func, ast.Name) and x.func.id == "sorted" and "_split_token" in src(x)]
+                    if hs and "sort_order" in src(h.node) and any(k.arg == "key" for k in hs[0].keywords):
+                        srt = hs
     ctx.check(bool(srt) and "_split_token" in src(srt[0]), "TPL6", "detokenise orders the parts of each token by sort_order", function=fd.qualname,
               construct="detokenise does not order token parts by sort_order", message="", file=fd.file, node=fd.node)
 
@@ -194,7 +203,8 @@ def _check(ctx: Ctx) -> None:
     flds0 = fields_of(js0)
     if len(flds0) != 1 or not isinstance(flds0[0], ast.Name):
         raise AnalysisError("REST emission: field expression not a simple name")
-    rest_env = T.branch_effect([s_ for s_ in block_of(stmt_of(c0)) if isinstance(s_, (ast.Assign, ast.AugAssign))], p.settings)
+    rest_env = T.branch_effect([s_ for s_ in block_of(stmt_of(c0)) if isinstance(s_, (ast.Assign, ast.AugAssign))
+                                and not (isinstance(s_, ast.Assign) and any(isinstance(t_, ast.Name) and t_.id == flds0[0].id for t_ in s_.targets))], p.settings)
     bar_if = None
     for a in ancestors(bar_sites[0][0]):
         if isinstance(a, ast.If) and isinstance(a.test, ast.Compare) and isinstance(a.test.comparators[0], ast.Constant) and a.test.comparators[0].value == 0 \
@@ -217,8 +227,11 @@ def _check(ctx: Ctx) -> None:
     # REST
     for c, js in rest_sites:
         st = stmt_of(c)
-        env = e_effect(T.branch_effect([s_ for s_ in block_of(st) if isinstance(s_, (ast.Assign, ast.AugAssign))], p.settings))
         flds = fields_of(js)
+        # (the emitted value itself stays a symbol: how it is chosen is RESTSUM's question, here only what is done with it)
+        fvar = flds[0].id if flds and isinstance(flds[0], ast.Name) else None
+        env = e_effect(T.branch_effect([s_ for s_ in block_of(st) if isinstance(s_, (ast.Assign, ast.AugAssign))
+                                        and not (isinstance(s_, ast.Assign) and any(isinstance(t_, ast.Name) and t_.id == fvar for t_ in s_.targets))], p.settings))
         de = d_effect("REST")
         sub = {"FIELD(1)": Sym.atom(flds[0].id)} if flds and isinstance(flds[0], ast.Name) else {}
         for r in T.ROLE_NAMES:
@@ -384,6 +397,8 @@ def _check(ctx: Ctx) -> None:
             pairing = s.targets[0].id
     if pairing is None and isinstance(loop.target, ast.Name):
         pairing = f"{loop.target.id}[1]"           # (channel, pairing) items read in place: no local names the pairing
+    if pairing is None and isinstance(loop.target, ast.Tuple) and len(loop.target.elts) == 2 and all(isinstance(x, ast.Name) for x in loop.target.elts):
+        pairing = loop.target.elts[1].id           # `for channel, pairing in ...`: the item unpacked in the loop header
     want = {"VALUE": f"{pairing}[1].time - {pairing}[0].time", "PITCH": f"{pairing}[0].note", "TRACK": f"{pairing}[0].channel"}
     for pr, w in want.items():
         srcs = fld_src.get(pr, set())
@@ -399,23 +414,39 @@ def _check(ctx: Ctx) -> None:
     # running values
     for pr, flag in (("TRACK", "flag_fuse_track"), ("VALUE", "flag_fuse_value"), ("VELOCITY", "flag_fuse_velocity")):
         fsrc = next(iter(fld_src.get(pr, {""})))
-        cond = None
+        # the running variable: the name the emitted value is compared with
         prv = None
-        for n in note_if.body:
-            if isinstance(n, ast.If) and flag in src(n.test):
-                for c in ast.walk(n.test):
-                    if isinstance(c, ast.Compare) and isinstance(c.ops[0], ast.NotEq) and src(c.left) == fsrc and isinstance(c.comparators[0], ast.Name):
-                        cond, prv = n, c.comparators[0].id
-        ok = False
-        if cond is not None:
-            t = cond.test
-            ok = isinstance(t, ast.BoolOp) and isinstance(t.op, ast.And) and src(t.values[0]) == f"not self.{flag}" and isinstance(t.values[1], ast.BoolOp) \
-                and isinstance(t.values[1].op, ast.Or) and {src(v) for v in t.values[1].values} == {f"{fsrc} != {prv}", "not self.flag_running_values"}
-            els = cond.orelse[0] if cond.orelse and isinstance(cond.orelse[0], ast.If) else None
-            ok = ok and els is not None and src(els.test) == f"self.{flag}"
+        cond = None
+        for c in ast.walk(note_if):
+            if isinstance(c, ast.Compare) and len(c.ops) == 1 and isinstance(c.ops[0], (ast.NotEq, ast.Eq)):
+                l, r = c.left, c.comparators[0]
+                for a_, b_ in ((l, r), (r, l)):
+                    if fsrc and src(a_) == fsrc and isinstance(b_, ast.Name):
+                        prv, cond = b_.id, c
+        # decided by truth table over (fused, changed, running values on): the separate token is written iff not fused and (changed or
+        # running values off), the fused part iff fused -- whatever the order and nesting of the tests
+        from ..astutil import reach_condition
+        sep_sites = [c for c, js in sites.get(pr, []) if note_if in list(ancestors(c))]
+        fused_sites = [n for n, js_ in fused_part_sites(note_if)
+                       if any(isinstance(v, ast.FormattedValue) and enum_member(v.value, "TokenisationPrefixes") == pr for v in js_.values)]
+        bad_rows = []
+        if prv is not None:
+            for F in (True, False):
+                for C in (True, False):
+                    for R in (True, False):
+                        atoms = {f"self.{flag}": F, f"{fsrc} != {prv}": C, "self.flag_running_values": R}
+
+                        def any_reached(nodes):
+                            rs = [reach_condition(n_, note_if, atoms) for n_ in nodes]
+                            return True if any(r_ is True for r_ in rs) else (None if any(r_ is None for r_ in rs) else False)
+                        got_sep, got_fused = any_reached(sep_sites), any_reached(fused_sites)
+                        want_sep, want_fused = (not F) and (C or not R), F
+                        if got_sep is not want_sep or got_fused is not want_fused:
+                            bad_rows.append(f"fused={F}, changed={C}, running={R}: separate token {got_sep} (required {want_sep}), fused part {got_fused} (required {want_fused})")
+        ok = prv is not None and not bad_rows
         ctx.check(ok, "RUN", f"tokenise: separate {pr} token iff not fused and (changed or running values off); fused part iff fused", function=fe.qualname,
-                  construct=f"emission condition of the {pr} token/part deviates", message=short(cond.test) if cond is not None else "not found",
-                  file=fe.file, node=cond or note_if)
+                  construct=f"emission condition of the {pr} token/part deviates", message="; ".join(bad_rows[:3]) if bad_rows else "running variable not found",
+                  file=fe.file, node=(sep_sites or fused_sites or [note_if])[0])
         if prv is None:
             continue
         ups = [s_ for s_ in note_if.body if isinstance(s_, ast.Assign) and isinstance(s_.targets[0], ast.Name) and s_.targets[0].id == prv]
@@ -428,32 +459,27 @@ def _check(ctx: Ctx) -> None:
         ctx.check(okd, "RUN", f"tokenise: the previous {pr.lower()} starts from a value no note can have (forces the first emission)", function=fe.qualname,
                   construct=f"initial previous {pr.lower()} could equal a real value", message=f"{[short(i_) for i_ in ini]}", file=fe.file, node=fe.node)
 
-    # ---- RUN (existence): each running value has its separate token under the unfused test and its fused part under the fused test
-    from ..astutil import path_conditions
+    # ---- RUN (existence): each running value has a separate token and a fused part somewhere in the note branch (when each is written is
+    # decided by the truth table above)
     for pr, flag in (("TRACK", "flag_fuse_track"), ("VALUE", "flag_fuse_value"), ("VELOCITY", "flag_fuse_velocity")):
         sep = [c for c, js in sites.get(pr, []) if note_if in list(ancestors(c))]
-        oks = False
-        for c in sep:
-            pcs = [(t, h) for t, h in path_conditions(c, note_if)]
-            oks = oks or (len(pcs) == 1 and pcs[0][1] and flag in src(pcs[0][0]) and src(pcs[0][0]).startswith(f"not self.{flag}"))
-        ctx.check(oks, "RUN", f"tokenise: a separate {pr} token is emitted under the unfused test", function=fe.qualname,
+        ctx.check(bool(sep), "RUN", f"tokenise: a separate {pr} token is emitted under the unfused test", function=fe.qualname,
                   construct=f"no separate {pr} token is emitted when {pr.lower()} is not fused",
                   message=f"{len(sep)} emission(s) in the note branch: detokenise would keep using the running {pr.lower()} of an earlier note", file=fe.file,
                   node=sep[0] if sep else note_if)
         fused = [n for n, js_ in fused_part_sites(note_if)
                  if any(isinstance(v, ast.FormattedValue) and enum_member(v.value, "TokenisationPrefixes") == pr for v in js_.values)]
-        okf = False
-        for n in fused:
-            pcs = path_conditions(n, note_if)
-            okf = okf or (bool(pcs) and pcs[0][1] and src(pcs[0][0]) == f"self.{flag}" and all((not h) and flag in src(t) for t, h in pcs[1:]))
-        ctx.check(okf, "RUN", f"tokenise: the {pr} part is fused into the note token under `self.{flag}`", function=fe.qualname,
+        ctx.check(bool(fused), "RUN", f"tokenise: the {pr} part is fused into the note token under `self.{flag}`", function=fe.qualname,
                   construct=f"no fused {pr} part when {pr.lower()} is fused", message=f"{len(fused)} fused part(s)", file=fe.file, node=fused[0] if fused else note_if)
 
+    from ..astutil import path_conditions
     # ---- DISPATCH: kind, time and channel of an event are read from the first message of its pairing; the note branch runs
     # for NOTE_ON, the signature branch for TIME_SIGNATURE
     defs = {s_.targets[0].id: s_.value for s_ in pre if isinstance(s_.targets[0], ast.Name)}
     tvar = note_if.test.left.id if isinstance(note_if.test.left, ast.Name) else None
     tdef = defs.get(tvar)
+    if tvar is None and pairing is not None:
+        tvar, tdef = src(note_if.test.left), note_if.test.left          # the kind read in place: `<pairing>[0].message_type == NOTE_ON`
     ctx.check(isinstance(note_if.test.ops[0], ast.Eq) and tdef is not None and nze.norm(tdef) == nze.norm(ast.parse(f"{pairing}[0].message_type", mode="eval").body), "DISPATCH",
               f"tokenise: the note branch runs iff the pairing's first message is a NOTE_ON", function=fe.qualname,
               construct="note branch of tokenise is not selected by `first message of the pairing is NOTE_ON`",
@@ -590,6 +616,13 @@ def _check(ctx: Ctx) -> None:
         if rest_.is_monomial() and len(rest_.atoms()) == 1 and list(rest_.terms.values()) == [1]:
             sv = next(iter(rest_.atoms()))
             ini = [s_ for s_ in fe.node.body if isinstance(s_, ast.Assign) and isinstance(s_.targets[0], ast.Name) and s_.targets[0].id == sv]
+            if len(ini) == 1 and isinstance(ini[0].value, ast.Name):
+                # a copy, taken before anything ran, of the variable restored from the carried clock
+                src_ = [s_ for s_ in fe.node.body if isinstance(s_, ast.Assign) and isinstance(s_.targets[0], ast.Name) and s_.targets[0].id == ini[0].value.id
+                        and s_.lineno < ini[0].lineno]
+                between = [s_ for s_ in fe.node.body if src_ and src_[-1].lineno < s_.lineno < ini[0].lineno]
+                if len(src_) == 1 and all(isinstance(s_, ast.Assign) for s_ in between):
+                    ini = src_
             shift_ok = len(ini) == 1 and isinstance(ini[0].value, ast.Call) and call_method(ini[0].value)[1] == "get" and ini[0].value.args \
                 and isinstance(ini[0].value.args[0], ast.Constant) and ini[0].value.args[0].value == "cur_time"
         want_ = got if shift_ok else None
@@ -632,6 +665,7 @@ def rest_sum_rule(ctx: Ctx, fe, sites, eroles) -> None:
     """RESTSUM: the rest closure emits step-size rests that add up to the requested rest and never cross a bar line:
     a local buffer starts at the requested amount, every round emits one rest of value V, subtracts exactly V from the buffer,
     V is bounded by min(buffer, remaining bar capacity), and the loop runs while the buffer is positive."""
+    p = ctx.p
     closure = next((n for n in fe.node.body if isinstance(n, ast.FunctionDef)), None)
     rest_sites = sites.get("REST", [])
     if closure is None or not rest_sites:
@@ -692,6 +726,35 @@ def rest_sum_rule(ctx: Ctx, fe, sites, eroles) -> None:
                 tv = ge.generators[0].target.id if isinstance(ge.generators[0].target, ast.Name) else None
                 rr = relation(conds[0], nz) if len(conds) == 1 else None
                 okd = tv is not None and rr is not None and same_relation(rr, Sym.atom(nxt) - Sym.atom(tv), ">=") and "reversed" in src(ge.generators[0].iter)
+            elif isinstance(d.value, ast.Call) and isinstance(d.value.func, ast.Attribute) and isinstance(d.value.func.value, ast.Name) \
+                    and d.value.func.value.id in ("self", fe.cls) and p.lookup_method(fe.cls, d.value.func.attr) is not None \
+                    and len(d.value.args) == 1 and not d.value.keywords and isinstance(d.value.args[0], ast.Name) and d.value.args[0].id == nxt:
+                # the choice lives in a helper that is handed `nxt`: its returns are judged the same way, with the parameter as `nxt`
+                h = p.lookup_method(fe.cls, d.value.func.attr)
+                ctx.analysed(h)
+                hp = [a_ for a_ in h.params if a_ not in ("self", "cls")][0]
+                hz = Normaliser()
+                hz.run_block([s_ for s_ in h.node.body if isinstance(s_, ast.Assign)])
+                rets = [r_ for r_ in walk_local(h.node) if isinstance(r_, ast.Return)]
+                okd = bool(rets)
+                kinds_ = set()
+                from ..astutil import guarded_conditions
+                for r_ in rets:
+                    v_ = r_.value
+                    lp_ = next((a for a in ancestors(r_) if isinstance(a, ast.For)), None)
+                    pcs_ = guarded_conditions(r_, lp_) if lp_ is not None else guarded_conditions(r_)
+                    if lp_ is None and v_ is not None and hz.norm(v_) == hz.norm(ast.parse("self.step_sizes[-1]", mode="eval").body):
+                        rel_ = [relation(t_, hz) for t_, h_ in pcs_ if h_]
+                        okd = okd and len(pcs_) == 1 and rel_ and rel_[0] is not None and same_relation(rel_[0], Sym.atom(hp) - hz.norm(v_), ">")
+                        kinds_.add("top")
+                    elif lp_ is not None and isinstance(lp_.target, ast.Name) and isinstance(v_, ast.Name) and v_.id == lp_.target.id \
+                            and src(lp_.iter) == "reversed(self.step_sizes)":
+                        rel_ = [relation(t_, hz) for t_, h_ in pcs_ if h_]
+                        okd = okd and len(pcs_) == 1 and rel_ and rel_[0] is not None and same_relation(rel_[0], Sym.atom(hp) - Sym.atom(v_.id), ">=")
+                        kinds_.add("scan")
+                    else:
+                        okd = False
+                okd = bool(okd) and "scan" in kinds_
             else:
                 okd = False
             ok = ok and okd
